@@ -54,7 +54,7 @@ def file_rows(rows, tier, seed):
     """statement slices of the sheets shipped with the repository x the assignments TLC enumerated that need no knowledge the
     contract lacks for arbitrary sheets (validity table, selector/namespace table, literal keywords)"""
     import glob, random, sys
-    sys.path.insert(0, "/repo")
+    sys.path.insert(0, __import__("os").environ.get("VERIF_REPO", "/repo"))
     from adapters import sheetast, prefs as ap
     ap.init()
     rng = random.Random(seed)
@@ -62,7 +62,7 @@ def file_rows(rows, tier, seed):
             and r["prefs"]["defaultAtKeyword"] and r["prefs"]["defaultPropertyPriority"] and r["prefs"]["normalizedVarNames"]
             and r["assignment"] != "pair"]
     slices = []
-    for path in sorted(glob.glob("/repo/sheets/*.css")):
+    for path in sorted(glob.glob(__import__("os").environ.get("VERIF_REPO", "/repo") + "/sheets/*.css")):
         try:
             text = open(path, "rb").read().decode("utf-8")
             ap.neutral()
